@@ -119,6 +119,15 @@ def _winit(modname, suitename):
         return
     _W["suite"] = s
     signal.signal(signal.SIGALRM, _alarm)
+    if mp.current_process().name != "MainProcess":
+        # a changed implementation may compute something enormous ('ab' * 10**10, 2 ** 10**9): let the worker get a
+        # MemoryError (reported as a case that could not be run) instead of exhausting the machine
+        try:
+            import resource
+            lim = int(os.environ.get("VERIF_WORKER_MEM_GB", "6")) << 30
+            resource.setrlimit(resource.RLIMIT_AS, (lim, lim))
+        except Exception:
+            pass
     if s.worker_init:
         s.worker_init()
 
@@ -127,7 +136,14 @@ def _wrun(case):
     s = _W["suite"]
     signal.alarm(s.case_timeout)
     try:
-        return s.run_impl(case)
+        out = s.run_impl(case)
+        try:
+            big = len(json.dumps(out, default=str)) > 4_000_000
+        except (MemoryError, OverflowError, ValueError, RecursionError):
+            big = True
+        if big:
+            return {"harness_error": "output of the implementation is larger than 4 MB"}
+        return out
     except CaseTimeout:
         return {"harness_error": "timeout"}
     except BaseException as e:   # noqa
@@ -356,16 +372,17 @@ def load_corpus(pid, suite):
     return out
 
 
-def shrink_case(suite, case, still_fails, budget=150):
-    """Greedy minimisation: keep any smaller candidate on which the failure persists."""
+def shrink_case(suite, case, still_fails, budget=150, seconds=None):
+    """Greedy minimisation: keep any smaller candidate on which the failure persists (bounded in steps and time)."""
     cur = case
     steps = 0
     improved = True
-    while improved and steps < budget:
+    t_end = time.time() + (seconds if seconds is not None else float(os.environ.get("VERIF_SHRINK_S", "90")))
+    while improved and steps < budget and time.time() < t_end:
         improved = False
         for cand in suite.shrink(cur):
             steps += 1
-            if steps >= budget:
+            if steps >= budget or time.time() >= t_end:
                 break
             try:
                 if still_fails(cand):
